@@ -49,6 +49,9 @@ func (f *Frame) inlineCall(bi *BInfo, fn *ssa.Function, cl *closureVal, args []T
 		child.setVal(p, a)
 		child.params[p.Name()] = child.vals[p]
 		if av != nil {
+			if k := f.findParamFn(av); k != "" {
+				child.paramFns[p] = k
+			}
 			if c := f.findClosure(av); c != nil {
 				child.closures[p] = c
 			}
@@ -70,6 +73,9 @@ func (f *Frame) inlineCall(bi *BInfo, fn *ssa.Function, cl *closureVal, args []T
 				continue
 			}
 			child.setVal(fv, cl.frame.val(b))
+			if k := cl.frame.findParamFn(b); k != "" {
+				child.paramFns[fv] = k
+			}
 			if c := cl.frame.findClosure(b); c != nil {
 				child.closures[fv] = c
 			}
@@ -795,6 +801,33 @@ func (f *Frame) blockingHook(bi *BInfo) {
 	}
 	fresh := g.arr(st, ctxFreshArr, "Bool")
 	g.setArr(st, ctxFreshArr, "Bool", sto(fresh, "0", "false"))
+}
+
+// findParamFn: the paramspec key of a value that is (or was bound to) a function-typed parameter
+// of the function under verification.
+func (f *Frame) findParamFn(v ssa.Value) string {
+	for fr := f; fr != nil; fr = fr.parent {
+		if k, ok := fr.paramFns[v]; ok {
+			return k
+		}
+	}
+	return ""
+}
+
+// paramFuncHook: a call of a function-typed parameter that has a `func Name#param` contract
+// (ghost effects of a callback handed in by the caller).
+func (f *Frame) paramFuncHook(bi *BInfo, c *ssa.CallCommon, args []T) ([]T, bool) {
+	k := f.findParamFn(c.Value)
+	if k == "" {
+		return nil, false
+	}
+	fc := f.g.cs.Funcs[k]
+	if fc == nil {
+		return nil, false
+	}
+	sig := c.Value.Type().Underlying().(*types.Signature)
+	all := append([]T{{}}, args...)
+	return f.applyContractSig(bi, fc, sig, "_callback", all, shortPath(k)), true
 }
 
 // funcValueHook: a call through a function-typed struct field that has a `func Type.field`
